@@ -28,6 +28,10 @@ from typing import Any, Optional
 # tokens: name -> list of representatives (python expressions evaluated once)
 # every documented rule must be constant on a token's representatives (checked by check_classes)
 # ---------------------------------------------------------------------------------------------
+class MyStr(str):
+    """an instance of a str SUBCLASS: 'any iterable excluding str and Mapping' must exclude it as well"""
+
+
 class E(enum.Enum):
     """members of Literal[...] types: 'Enum instances will be loaded via its loaders' (by exact value)"""
     A = "ea"
@@ -35,7 +39,7 @@ class E(enum.Enum):
 
 
 _NS = {"Decimal": Decimal, "Fraction": Fraction, "dtm": dtm, "uuid": uuid, "pathlib": pathlib,
-       "ipaddress": ipaddress, "re": re, "math": math, "E": E}
+       "ipaddress": ipaddress, "re": re, "math": math, "E": E, "MyStr": MyStr}
 
 TOKENS: dict[str, list[str]] = {
     "none": ["None"],
@@ -62,6 +66,7 @@ TOKENS: dict[str, list[str]] = {
     "uu": ["uuid.UUID('12345678-1234-5678-1234-567812345678')"], "pa": ["pathlib.Path('a/b')"],
     "ip": ["ipaddress.IPv4Address('127.0.0.1')", "ipaddress.IPv4Address('10.0.0.1')"], "pat": ["re.compile('a+')"],
     "s_ea": ["'ea'"], "i5": ["5"], "e_a": ["E.A"], "e_b": ["E.B"],
+    "s_sub": ["MyStr('abc')", "MyStr('x y')"],
     # the rest of the documented "exact lists": path-like classes, IP addresses / networks / interfaces
     "ppp": ["pathlib.PurePosixPath('a/b')"], "pwp": ["pathlib.PureWindowsPath('a/b')"],
     "s_ip6": ["'::1'", "'fe80::1'"], "s_net4": ["'10.0.0.0/30'", "'192.168.0.4/31'"], "s_net6": ["'fe80::/126'"],
@@ -294,6 +299,11 @@ def axioms_tla() -> str:
         "EqClass == " + fn({t: str(eqc[t]) for t in toks}),
         "Hashable == " + fn({t: b(hashable(rep(t))) for t in toks}),
         "Ctors == {" + ", ".join(f'"{c}"' for c in CTORS) + "}",
+        "\\* instances of user subclasses of builtin scalar classes (the documentation speaks about the classes themselves)",
+        "SubclassAtoms == {" + ", ".join(f'"{t}"' for t in toks if type(rep(t)).__module__ != "builtins"
+                                        and any(b in (str, int, float, bytes) for b in type(rep(t)).__mro__[1:])
+                                        and not isinstance(rep(t), enum.Enum)) + "}",
+        "StrLikeAtoms == {" + ", ".join(f'"{t}"' for t in toks if isinstance(rep(t), str)) + "}",
         "\\* tokens that are iterable objects although they are neither containers of the data universe nor str / bytes-like",
         "OtherIterableAtoms == {" + ", ".join(f'"{t}"' for t in toks if isinstance(rep(t), collections.abc.Iterable)
                                              and not isinstance(rep(t), (str, bytes, bytearray))) + "}",
